@@ -42,7 +42,7 @@ Fixpoint keys_ascending (ks : list (list byte)) : bool :=
   end.
 Fixpoint unamb (v : nvalue) : bool :=
   match v with
-  | NInt _ z => ((- 2 ^ 63 <=? z) && (z <? 2 ^ 64))%Z
+  | NInt k z => if ik_signed k then ((- 2 ^ 63 <=? z) && (z <? 2 ^ 63))%Z else ((0 <=? z) && (z <? 2 ^ 64))%Z
   | NF32 b => f32_finite b
   | NF64 b => f64_finite b
   | NSome x | NNewtypeStruct _ x | NVariant _ _ _ x => unamb x
